@@ -27,6 +27,9 @@ type bindingOracle struct {
 	crossOK   int
 	wrongResp int
 	sigOK     map[cert.Certificate]bool
+	// dialled remembers, for every tunnel object seen in a node's pending (initiator side) table, the overlay
+	// address the handshake was started for
+	dialled map[*HostInfo]netip.Addr
 }
 
 func certAddrs(c cert.Certificate) []netip.Addr {
@@ -41,7 +44,22 @@ func (o *bindingOracle) check(n *simNode, ev string, deep bool) bool {
 	rc := o.rc
 	hm := n.f.hostMap
 	own := n.f.myVpnAddrs
+	if o.dialled == nil {
+		o.dialled = map[*HostInfo]netip.Addr{}
+	}
+	for _, a := range sortedAddrs(n.f.handshakeManager.vpnIps) {
+		hh := n.f.handshakeManager.vpnIps[a]
+		if _, seen := o.dialled[hh.hostinfo]; !seen {
+			o.dialled[hh.hostinfo] = a
+		}
+	}
 	for _, h := range sortedHostInfos(hm) {
+		if a, ok := o.dialled[h]; ok && h.ConnectionState != nil && h.ConnectionState.peerCert != nil {
+			if !slices.Contains(certAddrs(h.ConnectionState.peerCert.Certificate), a) {
+				rc.Fail("different-host-answered", "node %d after %s: the handshake it started for %v completed into tunnel %d with a host whose certificate lists %v", n.idx, ev, a, h.localIndexId, certAddrs(h.ConnectionState.peerCert.Certificate))
+				return false
+			}
+		}
 		cs := h.ConnectionState
 		if cs == nil || cs.peerCert == nil || cs.peerCert.Certificate == nil {
 			rc.Fail("no-verified-cert", "node %d after %s: tunnel %d (%v) in the hostmap without a verified peer certificate", n.idx, ev, h.localIndexId, h.vpnAddrs)
@@ -154,14 +172,39 @@ func runC09(rc *sk.RunCtx) {
 	defer mw.stopAll()
 	or := &bindingOracle{rc: rc, mw: mw}
 	if claimer {
-		// a certified node whose certificate also lists node 0's primary address
+		// a certified node whose certificate also lists another node's primary address, before or after its
+		// own address(es) in the certificate's (sorted) network list
 		i := len(mw.nodes)
+		victim := tp.Choose(len(mw.specs))
+		claimed := mw.specs[victim].nets[0]
+		low := netip.PrefixFrom(netip.AddrFrom4([4]byte{10, 127, 0, byte(i + 1)}), 24)
 		spec := &nodeSpec{name: fmt.Sprintf("claimer%d", i), udp: underlayAddr(i, 0)}
-		spec.nets = []netip.Prefix{overlayAddr(i, 0), overlayAddr(0, 0)}
+		switch tp.Choose(3) {
+		case 0:
+			spec.nets = []netip.Prefix{overlayAddr(i, 0), claimed}
+		case 1:
+			spec.nets = []netip.Prefix{low, claimed}
+		case 2:
+			spec.nets = []netip.Prefix{low, claimed, overlayAddr(i, 0)}
+		}
 		spec.id = newSimIdentity(mw.ca, []cert.Version{cert.Version2}, spec.name, mw.notBefore, mw.notAfter, spec.nets, nil, nil)
 		spec.static = map[string][]string{}
 		for j := range mw.specs {
 			spec.static[overlayAddr(j, 0).Addr().String()] = []string{underlayAddr(j, 0).String()}
+		}
+		// the claimer cannot address its victim by the claimed address (it believes that address is its own), so it
+		// reaches the victim's underlay through a decoy overlay address and initiates handshakes there
+		decoy := netip.AddrFrom4([4]byte{10, 128, 0, 250})
+		spec.static[decoy.String()] = []string{mw.specs[victim].udp.String()}
+		own := spec.nets[0].Addr()
+		for k, m := 0, 2+tp.Choose(5); k < m; k++ {
+			at := time.Second + time.Duration(tp.Choose(int(horizon/time.Millisecond)))*time.Millisecond
+			mw.at(at, "claimer-initiates", func() {
+				if nd := mw.nodes[i]; nd.alive {
+					nd.sendInside(simUDP(own, decoy, 999, 999, []byte("claimer")))
+					rc.Count("probe.claimer_initiated_to_victim", 1)
+				}
+			})
 		}
 		mw.specs = append(mw.specs, spec)
 		nd := mw.addNode(spec)
